@@ -8,7 +8,7 @@ import (
 )
 
 func genProgram(t *rapid.T, maxTasks, maxOps int, oneType, noAsync bool) *Case {
-	c := &Case{}
+	c := &Case{SharedOpts: rapid.IntRange(0, 3).Draw(t, "sharedOpts") == 0}
 	groups := busmodel.ShardGroups()
 	g := groups[rapid.IntRange(0, len(groups)-1).Draw(t, "group")]
 	if rapid.Bool().Draw(t, "sameShard") {
